@@ -70,6 +70,10 @@ try:
 finally:
     subprocess.call(['git', '-C', '/repo', 'worktree', 'remove', '--force', wt], stdout=subprocess.DEVNULL, stderr=subprocess.DEVNULL)
     shutil.rmtree(wt, ignore_errors=True)
+    import glob
+    for f in glob.glob('/verif/replays/*@*'):
+        try: os.remove(f)
+        except OSError: pass
 
 dst = os.path.join('/verif/controls', name)
 os.makedirs(dst, exist_ok=True)
